@@ -49,6 +49,7 @@ PROCS = ["sysenv", "use phase", "end-of-life / recycling: Müll"]
 ITEMS_A = {"t": [2001, 2000, 2002], "p": ["p1", "p2"], "q": ["q1", "q2"]}  # typed int items listed unsorted
 ITEMS_B = {"t": [1990, 1995, 2005], "p": ["steel", "wood"], "q": ["new", "old"]}  # decoy: same names, letters, lengths
 ITEMS_M = {"t": [2001, 2000, 2002], "p": ["p1", "p2"], "q": ["old", 7]}  # an untyped dimension whose items have mixed types
+ITEMS_N = {"t": [2001, 2000, 2002], "p": ["7208", "7209"], "q": ["q1", "q2"]}  # a text-typed dimension whose labels look like numbers
 ITEMS = ITEMS_A
 NAMES = {"t": "Time", "p": "Product", "q": "Quality"}
 ARRS = ["", "t", "tp", "pt", "qtp", "pq"]
@@ -138,7 +139,7 @@ def run_case(spec, export):
     # prelude: the same export was run before on a DECOY system with equally named, equally long dimensions
     # but different items and values (exports must not remember anything from earlier exports)
     global ITEMS
-    main_items = ITEMS_M if spec.get("mixed") else ITEMS_A
+    main_items = ITEMS_M if spec.get("mixed") else (ITEMS_N if spec.get("numtext") else ITEMS_A)
     if spec.get("mixed") and export not in ("numpy", "pandas", "pickle"):
         return "n/a", None  # mixed-type labels do not survive CSV text
     ITEMS = ITEMS_B
@@ -294,6 +295,8 @@ def specs(tier, seed=0):
     yield dict(SEPARATOR_SPEC)
     for a in ("pq", "qtp"):
         yield dict(nproc=2, flows=[[0, 1, a, "C"]], stocks=[[1, "tpq", "in use"]], proc_order="listed", mixed=True)
+    for a in ("tp", "qtp"):
+        yield dict(nproc=2, flows=[[0, 1, a, "C"], [1, 0, "p", "C"]], stocks=[[1, "tpq", "in use"]], proc_order="listed", numtext=True)
     for nproc in (2, 3):
         pairs = [(s, d) for s in range(nproc) for d in range(nproc)]
         types = [(s, d, a, prov) for s, d in pairs for a in ARRS for prov in (("C",) if len(a) < 2 else ("C", "F"))]
